@@ -85,7 +85,7 @@ let () =
               | ["set"; k; v] -> incr nkeys; h := hstep mixF order O !h (OSet (n_of_int (int_of_string k), n_of_dec v))
               | ["db"; b] -> Hashtbl.replace handlers "__usedb" (fun _ -> b)
               | "restart" :: _ ->
-                let usedb = (match Hashtbl.find_opt handlers "__usedb" with Some f -> f [] = "1" | None -> false) in
+                let usedb = (match Hashtbl.find_opt handlers "__usedb" with Some f -> f [] <> "0" | None -> false) in
                 h := hstep mixF order O !h (ORestart usedb); flush_log ()
               | "build" :: k :: _ ->
                 incr cur_build;
@@ -97,7 +97,15 @@ let () =
                 say ("epoch " ^ dec_of_n (!h).h_st.st_epoch);
                 let mem = List.sort (fun (a, _) (b, _) -> compare (int_of_n a) (int_of_n b)) (!h).h_st.st_mem in
                 List.iter (fun (k, r) -> if r.res_deps <> [] then
-                              say ("deps " ^ kstr k ^ " " ^ String.concat " " (List.map (fun d -> kstr d.d_key) r.res_deps))) mem
+                              say ("deps " ^ kstr k ^ " " ^ String.concat " " (List.map (fun d -> kstr d.d_key) r.res_deps))) mem;
+                let usedb = (match Hashtbl.find_opt handlers "__usedb" with Some f -> f [] <> "0" | None -> false) in
+                if usedb then begin
+                  let db = List.sort (fun (a, _) (b, _) -> compare (int_of_n a) (int_of_n b)) (!h).h_st.st_db in
+                  List.iter (fun (k, r) ->
+                      say (String.concat " " (["dbrow"; kstr k; vstr r.res_value; dec_of_n r.res_sig; dec_of_n r.res_computedAt; dec_of_n r.res_builtAt]
+                                              @ List.map (fun d -> kstr d.d_key ^ ":" ^ string_of_int ((if d.d_single then 2 else 0) + (if d.d_order then 1 else 0))) r.res_deps))) db;
+                  say ("dbepoch " ^ dec_of_n (!h).h_st.st_db_epoch)
+                end
               | ["fresh"; k] ->
                 let kk = n_of_int (int_of_string k) in
                 let rl = rules_of (!h).h_pending and en = env_of (!h).h_env in
